@@ -5,7 +5,7 @@ import shutil
 import tempfile
 
 from engine import gen_states, pool_map
-from readers import parse_cigar, run_cli, split_tag, write_text
+from readers import parse_cigar, run_cli, split_tag, write_text, workdir
 
 SMALL = {"s1": "ACG", "s2": "TTA", "s3": "GC"}
 SMALL_LINKS = [("s1", "+", "s2", "+"), ("s2", "+", "s3", "+"), ("s1", "+", "s3", "-"), ("s2", "+", "s2", "-")]
@@ -45,7 +45,7 @@ def run_batch(job):
     import readers as _rd
 
     _rd.CASE = str(bid)
-    d = tempfile.mkdtemp(prefix="align_")
+    d = workdir("align_", bid)
     try:
         gfa = os.path.join(d, "g.gfa")
         with open(gfa, "w") as f:
